@@ -157,6 +157,51 @@ func (g *sgen) tree(n int, authPct int, parents []int) *privTree {
 	return t
 }
 
+// loosen gives one level a pattern that also matches the prompts of other levels (same closing
+// character, any parenthesised tag) and a not-contains list that excludes them again -- the shape of
+// e.g. a privileged level next to configuration and tcl-shell levels. Every prompt still belongs to
+// exactly one level, but only through the exclusions. Returns the level's name ("" if none suits).
+func (g *sgen) loosen(t *privTree) string {
+	cand := g.r.Perm(len(t.Specs))
+	for _, i := range cand {
+		ps := &t.Specs[i]
+		prompt := strings.TrimRight(t.Prompt[ps.Name], " ")
+		sym := prompt[len(prompt)-1:]
+		var excl []string
+		ok := true
+		for _, o := range t.Specs {
+			if o.Name == ps.Name {
+				continue
+			}
+			op := strings.TrimRight(t.Prompt[o.Name], " ")
+			if op == prompt {
+				ok = false // a twin: nothing could tell them apart
+
+				break
+			}
+			if op[len(op)-1:] != sym {
+				continue
+			}
+			tag := strings.TrimSuffix(strings.TrimPrefix(op, g.host), sym)
+			if tag == "" || strings.Contains(prompt, tag) {
+				ok = false
+
+				break
+			}
+			excl = append(excl, tag)
+		}
+		if !ok || len(excl) == 0 {
+			continue
+		}
+		ps.Pattern = `(?im)^` + regexp.QuoteMeta(g.host) + `[a-z()]*` + regexp.QuoteMeta(sym) + `\s?$`
+		ps.NotContains = excl
+
+		return ps.Name
+	}
+
+	return ""
+}
+
 // addTwin gives one leaf of the tree a sibling with the very same prompt and prompt pattern
 // (as e.g. the configuration / exclusive-configuration levels of real platforms): only the level
 // the driver remembers having acquired tells the two apart. Returns the names of the two levels
